@@ -154,7 +154,8 @@ Reopen ==
           /\ mem' = [n \in {nameOf(id) : id \in liveIds} |->
                         LET id == CHOOSE i \in liveIds : nameOf(i) = n IN
                         [id |-> id, cfg |-> Decode(id), ok |-> ~DecodePanics(id)]]
-          /\ nextId' = MaxOf(liveIds \cup (IF IdsFromJournal THEN jids ELSE {})) + 1
+          \* (recover_keyspaces starts its scan at 1: the counter is never below 2 after a recovery)
+          /\ nextId' = MaxOf({1} \cup liveIds \cup (IF IdsFromJournal THEN jids ELSE {})) + 1
           /\ seqno' = IF SeqnoFromMeta THEN MaxOf({e.s : e \in meta}) + 1 ELSE 0
     /\ nreopen' = nreopen + 1
     /\ UNCHANGED <<meta, jids, created, nops, lastOpen>>
@@ -176,6 +177,8 @@ InForce == \A n \in live : mem[n].ok /\ mem[n].cfg = created[n]
 \* earlier holder of the id shines through, nothing is missing)
 StoredExact == \A n \in live : mem[n].ok => VisibleRows(mem[n].id) = RowNames(created[n]) \cup {"name"}
 DecodeOfStored == \A n \in live : mem[n].ok => Decode(mem[n].id) = created[n]
+\* nothing of a deleted keyspace is left behind in the stored form
+NoDeadRows == \A id \in 1..MaxId : (\A n \in live : mem[n].id # id) => VisibleRows(id) = {}
 \* keyspace() on an existing name hands out the configuration in force, not the passed one
 OpenIgnoresPassed == lastOpen.got = lastOpen.want
 \* no two live keyspaces share an id
